@@ -163,6 +163,9 @@ type Divergence struct {
 	OpIndex int
 	Class   string
 	Detail  string
+	Table   string
+	Missing []string
+	Extra   []string
 }
 
 // Exec drives engine + model.
@@ -263,7 +266,7 @@ func (e *Exec) run1(i int, op Op) OpOutcome {
 		disk.SimMark("stmt-end", sl.st.ID(), int64(i))
 		e.StmtCount++
 		if res.Plan != "" {
-			e.PlanShapes[op.Stmt.Kind+":"+res.Plan]++
+			e.PlanShapes[op.Stmt.Kind+":"+planKind(res.Plan)]++
 		}
 		if res.Panic != nil {
 			return e.fail(i, res.Panic)
@@ -295,7 +298,7 @@ func (e *Exec) run1(i int, op Op) OpOutcome {
 		if op.Stmt.Kind == "select" && e.CheckSelects {
 			want, got := canonRows(rows), canonRows(res.Rows)
 			if !sameStrings(want, got) {
-				e.Div = append(e.Div, Divergence{i, "select-answer", fmt.Sprintf("%s: %s", op.Stmt.SQL(), diffStrings(want, got))})
+				e.Div = append(e.Div, Divergence{OpIndex: i, Class: "select-answer", Detail: fmt.Sprintf("%s: %s", op.Stmt.SQL(), diffStrings(want, got))})
 			}
 		}
 		return OpOutcome{"ok", ""}
@@ -312,7 +315,7 @@ func (e *Exec) run1(i int, op Op) OpOutcome {
 		// model-level conflict check: two open overlays on the same committed row must not both commit
 		for t2, o := range e.Slots {
 			if t2 != op.T && o != nil && sl.mt.Touches(o.mt) {
-				e.Div = append(e.Div, Divergence{i, "write-write-overlap", fmt.Sprintf("slots %d and %d both changed the same committed row", op.T, t2)})
+				e.Div = append(e.Div, Divergence{OpIndex: i, Class: "write-write-overlap", Detail: fmt.Sprintf("slots %d and %d both changed the same committed row", op.T, t2)})
 			}
 		}
 		disk.SimMark("commit-called", sl.st.ID(), wrote)
@@ -394,7 +397,7 @@ func (e *Exec) run1(i int, op Op) OpOutcome {
 		if op.Stmt.Kind == "select" && e.CheckSelects {
 			want, got := canonRows(rows), canonRows(res.Rows)
 			if !sameStrings(want, got) {
-				e.Div = append(e.Div, Divergence{i, "select-answer", fmt.Sprintf("%s: %s", op.Stmt.SQL(), diffStrings(want, got))})
+				e.Div = append(e.Div, Divergence{OpIndex: i, Class: "select-answer", Detail: fmt.Sprintf("%s: %s", op.Stmt.SQL(), diffStrings(want, got))})
 			}
 		}
 		return OpOutcome{"ok", ""}
@@ -410,16 +413,17 @@ func (e *Exec) VerifyCommitted(where string) []Divergence {
 	for _, t := range e.M.Tables {
 		rows, _, res := e.S.ScanHeap(t.Name)
 		if res.Panic != nil {
-			out = append(out, Divergence{-1, "scan-panic", where + ": " + res.Panic.String()})
+			out = append(out, Divergence{OpIndex: -1, Class: "scan-panic", Detail: where + ": " + res.Panic.String()})
 			continue
 		}
 		if res.Err != nil || res.Aborted {
-			out = append(out, Divergence{-1, "scan-failed", fmt.Sprintf("%s: table %s: err=%v aborted=%v", where, t.Name, res.Err, res.Aborted)})
+			out = append(out, Divergence{OpIndex: -1, Class: "scan-failed", Detail: fmt.Sprintf("%s: table %s: err=%v aborted=%v", where, t.Name, res.Err, res.Aborted)})
 			continue
 		}
 		got := canonRows(rows)
 		if !sameStrings(snap[t.Name], got) {
-			out = append(out, Divergence{-1, "table-contents", fmt.Sprintf("%s: table %s: %s", where, t.Name, diffStrings(snap[t.Name], got))})
+			ms, ex := multisetDiff(snap[t.Name], got)
+			out = append(out, Divergence{OpIndex: -1, Class: "table-contents", Detail: fmt.Sprintf("%s: table %s: %s", where, t.Name, diffStrings(snap[t.Name], got)), Table: t.Name, Missing: ms, Extra: ex})
 		}
 	}
 	return out
